@@ -101,16 +101,18 @@ void Network::start_read(int id, std::vector<boost::asio::mutable_buffer> bufs, 
     for (auto& b : bufs) cap += b.size();
     c.read_bufs = std::move(bufs);
     c.read_cap = cap;
+    { ReadRec rr; rr.conn = id; rr.t_start = w.now; rr.seq_start = w.seq; c.cur_read = (int)reads.size(); reads.push_back(rr); }
     c.read_op = Pending<void(error_code, std::size_t)>::make(std::move(h), ex,
         [this, id](asio::cancellation_type_t) {
             Conn& c = *conns[id];
             if (c.read_op && c.read_op->pending()) {
                 w.tr("read_opcancel", id);
                 w.count("net.read_cancelled");
+                end_read(c, ReadRec::slot_cancel, 0);
                 c.read_op->complete(asio::error::operation_aborted, 0);
             }
         });
-    if (cap == 0) { c.read_op->complete(error_code{}, 0); return; }
+    if (cap == 0) { end_read(c, ReadRec::data, 0); c.read_op->complete(error_code{}, 0); return; }
     try_complete_read(c);
 }
 
@@ -132,19 +134,35 @@ void Network::try_complete_read(Conn& c) {
         }
         c.rx.erase(0, n);
         c.b2c_consumed += n;
+        c.t_last_consumed = w.now;
         w.next_seq();
+        end_read(c, ReadRec::data, n);
         w.tr("read_done", c.id, n);
         if (sink) sink->on_b2c_consumed(c, c.b2c_consumed);
         c.read_op->complete(error_code{}, n);
     } else if (c.dead) {
         w.next_seq();
         w.tr("read_err", c.id, c.dead_ec.value());
+        end_read(c, ReadRec::error, 0);
         c.read_op->complete(c.dead_ec, 0);
     } else if (c.fin_arrived || c.client_shutdown) {
         w.next_seq();
         w.tr("read_eof", c.id);
+        end_read(c, ReadRec::error, 0);
         c.read_op->complete(asio::error::eof, 0);
     }
+}
+
+void Network::end_read(Conn& c, ReadRec::End how, size_t n) {
+    if (c.cur_read < 0) return;
+    auto& r = reads[c.cur_read];
+    r.end = how; r.t_end = w.now; r.seq_end = w.seq; r.n = n;
+    c.cur_read = -1;
+}
+
+void Network::mark_dead(Conn& c, error_code ec) {
+    c.dead = true; c.dead_ec = ec; c.rx.clear();
+    c.t_dead = w.now; c.seq_dead = w.seq;
 }
 
 // ------------------------------------------------------------------ write
@@ -211,7 +229,7 @@ void Network::start_write(int id, const std::vector<boost::asio::const_buffer>& 
     for (auto& wf : c.write_faults) {
         if (wf.fired || wf.nth != call_idx) continue;
         wf.fired = true;
-        c.fault_injected = true;
+        c.fault_injected = true; c.transport_fault = true;
         size_t k = offered * (size_t)wf.deliver_permille / 1000;
         c.fault_log.push_back("write_fault deliver " + std::to_string(k) + "/" + std::to_string(offered));
         w.count("fault.write_error");
@@ -243,7 +261,8 @@ void Network::start_write(int id, const std::vector<boost::asio::const_buffer>& 
         w.tr("write_fault", id, k, offered);
         op->complete(wf.ec, 0);
         // a pending read fails as well
-        if (c.read_op && c.read_op->pending()) c.read_op->complete(wf.ec, 0);
+        c.t_dead = w.now; c.seq_dead = w.seq;
+        if (c.read_op && c.read_op->pending()) { end_read(c, ReadRec::error, 0); c.read_op->complete(wf.ec, 0); }
         if (sink) sink->on_conn_dead(c);
         return;
     }
@@ -269,7 +288,7 @@ void Network::start_write(int id, const std::vector<boost::asio::const_buffer>& 
         w.schedule(at, "rst_after_fin", [this, id]() {
             Conn& c = *conns[id];
             if (c.client_closed || c.dead) return;
-            c.dead = true; c.dead_ec = asio::error::connection_reset; c.rx.clear();
+            mark_dead(c, asio::error::connection_reset);
             if (sink) sink->on_conn_dead(c);
             try_complete_read(c);
         });
@@ -317,7 +336,7 @@ size_t Network::cut_at_trigger(Conn& c, Dir d, size_t off, size_t len) {
 }
 
 void Network::apply(Conn& c, const ByteTrigger& t) {
-    c.fault_injected = true;
+    c.fault_injected = true; c.transport_fault = true;
     c.fault_log.push_back(t.label);
     switch (t.act) {
     case FaultAct::rst: inject_rst(c, t.lose_inflight, t.label.c_str()); break;
@@ -406,7 +425,7 @@ void Network::arrive_b2c(Conn& c, std::string data, uint64_t epoch) {
 
 void Network::broker_close(Conn& c, bool rst) {
     if (c.broker_closed) return;
-    c.broker_closed = true;
+    c.broker_closed = true; c.t_broker_closed = w.now;
     if (!*c.close_cause) c.close_cause = rst ? "broker_rst" : "broker_fin";
     int id = c.id;
     w.tr("broker_close", id, rst);
@@ -415,7 +434,7 @@ void Network::broker_close(Conn& c, bool rst) {
         w.schedule_after(latency(c), "rst_arrive", [this, id]() {
             Conn& c = *conns[id];
             if (c.client_closed || c.dead) return;
-            c.dead = true; c.dead_ec = asio::error::connection_reset; c.rx.clear();
+            mark_dead(c, asio::error::connection_reset);
             if (sink) sink->on_conn_dead(c);
             try_complete_read(c);
         });
@@ -440,7 +459,7 @@ void Network::fail_pending(Conn& c, error_code ec) {
         c.connect_result = ec;
         c.connect_op->complete(ec);
     }
-    if (c.read_op && c.read_op->pending()) c.read_op->complete(ec, 0);
+    if (c.read_op && c.read_op->pending()) { end_read(c, ReadRec::closed, 0); c.read_op->complete(ec, 0); }
     if (c.write_op && c.write_op->pending()) {
         if (c.write_event) { w.cancel_event(c.write_event); c.write_event = 0; }
         auto op = c.write_op; c.write_op = nullptr;
@@ -513,7 +532,7 @@ bool Network::peer_name_ok(int id) {
 
 void Network::inject_rst(Conn& c, bool lose_inflight, const char* label) {
     if (c.client_closed || c.dead || c.st != Conn::established) return;
-    c.fault_injected = true;
+    c.fault_injected = true; c.transport_fault = true;
     if (!*c.close_cause) c.close_cause = "net_rst";
     w.count("fault.reset");
     if (lose_inflight) { ++c.epoch; w.count("fault.reset_lose_inflight"); }
@@ -530,7 +549,7 @@ void Network::inject_rst(Conn& c, bool lose_inflight, const char* label) {
     w.schedule_after(latency(c), "rst_client_side", [this, id]() {
         Conn& c = *conns[id];
         if (c.client_closed || c.dead) return;
-        c.dead = true; c.dead_ec = asio::error::connection_reset; c.rx.clear();
+        mark_dead(c, asio::error::connection_reset);
         ++c.epoch;
         w.next_seq();
         w.tr("rst_arrive", id);
@@ -541,7 +560,7 @@ void Network::inject_rst(Conn& c, bool lose_inflight, const char* label) {
 
 void Network::inject_blackhole(Conn& c, const char* label) {
     if (c.client_closed || c.dead || c.blackhole) return;
-    c.fault_injected = true;
+    c.fault_injected = true; c.transport_fault = true;
     c.blackhole = true;
     ++c.epoch;
     w.count("fault.blackhole");
@@ -556,7 +575,7 @@ void Network::heal() {
             if (!*c->close_cause) c->close_cause = "blackhole_heal";
             // a half-dead connection does not survive the path coming back
             int id = c->id;
-            c->dead = true; c->dead_ec = asio::error::connection_reset;
+            mark_dead(*c, asio::error::connection_reset);
             c->broker_closed = true;
             w.next_seq();
             w.tr("heal_reset", id);
